@@ -54,7 +54,7 @@ class Shape:
             return flat3, None, ["prj.d"]
         if n == "parsing_dirs":
             return [R + "/p%d" % i for i in range(1, self.nlay + 1)], "cfg.conf", ["cfg.conf.d"]
-        if n == "config_dirs":
+        if n in ("config_dirs", "config_dirs_over_global"):
             return std3, "cfg.conf", ["cfg.conf.d", "cfg.d"]
         if n == "set_conf_dirs":
             return std3, "cfg.conf", ["cfg.conf.d", "cfg/conf.d"]
@@ -62,6 +62,8 @@ class Shape:
             return [R + "/usr/etc", R + "/etc"], "cfg.conf", ["cfg.conf.d"]
         if n == "readdirs_nulldist":
             return [R + "/none", R + "/etc"], "cfg.conf", ["cfg.conf.d"]
+        if n in ("readfile", "readfilecb"):          # the single-file entry points: a "tree" of one layer with a main file only
+            return [R + "/single"], "cfg.conf", ["cfg.conf.d"]
         raise ValueError(n)
 
     def pre(self, R):
@@ -69,12 +71,21 @@ class Shape:
             return ["chdir %s" % hx(R)]       # relative directory arguments: the callback must see the relative paths
         if self.name == "set_conf_dirs":
             return ["setconfdirs %s %s" % (hx(".conf.d"), hx("/conf.d"))]
+        if self.name == "config_dirs_over_global":
+            # the object's own CONFIG_DIRS list has priority over the process-wide list: the directories of the global list
+            # hold decoy files that must not be read
+            return ["setconfdirs %s" % hx(".other.d")]
+        return []
+
+    def decoys(self, R):
+        if self.name == "config_dirs_over_global":
+            return ["file %s %s" % (hx(d + "/cfg.other.d/zz.conf"), hx("DECOY=1\n")) for d in self.layout(R)[0]]
         return []
 
     def post(self):
         if self.name.endswith("_rel"):
             return ["chdir %s" % hx("/")]
-        if self.name == "set_conf_dirs":
+        if self.name in ("set_conf_dirs", "config_dirs_over_global"):
             return ["setconfdirs"]
         return []
 
@@ -101,7 +112,7 @@ class Shape:
             dirs = ":".join(R + "/p%d" % i for i in range(1, self.nlay + 1))
             return ["newopt %d %s" % (h, hx("PARSING_DIRS=" + dirs)),
                     "readconfig%s %d %s %s %s %s %s" % (c, h, hx("prj"), hx("/usr/lib"), hx("cfg"), hx("conf"), dc)]
-        if n == "config_dirs":
+        if n in ("config_dirs", "config_dirs_over_global"):
             return ["newopt %d %s" % (h, hx("CONFIG_DIRS=.conf.d:.d;ROOT_PREFIX=" + R)),
                     "readconfig%s %d %s %s %s %s %s" % (c, h, hx("prj"), hx("/usr/lib"), hx("cfg"), hx("conf"), dc)]
         if n == "set_conf_dirs":
@@ -120,6 +131,8 @@ class Shape:
                     "readconfig%s %d %s - %s %s %s" % ("cb" if n == "rc2cb" else "", h, hx("prj"), hx("cfg"), hx("conf"), dc)]
         if n == "readdirs_nulldist":
             return ["readdirs%s %d - %s %s %s %s" % (c, h, hx(R + "/etc"), hx("cfg"), hx("conf"), dc)]
+        if n in ("readfile", "readfilecb"):
+            return ["readfile%s %d %s %s" % ("cb" if n == "readfilecb" else "", h, hx(R + "/single/cfg.conf"), dc)]
         raise ValueError(n)
 
 
@@ -211,7 +224,7 @@ def replay_trees(exe, recs, shape, verdict, pid, check_log=True, check_order=Fal
         if pdmap and len(shape.layout(R)[2]) < 2:
             pdmap = None
         s, paths = materialise(t, shape, R, pd=pdmap)
-        s = shape.pre(R) + s + shape.call(1, R, cb=True) + ["dump 1", "free 1"] + shape.post()
+        s = shape.pre(R) + s + shape.decoys(R) + shape.call(1, R, cb=True) + ["dump 1", "free 1"] + shape.post()
         cases.append((i, s))
         metas.append((t, paths))
     res = core.run_cases(exe, cases)
@@ -337,7 +350,7 @@ def check_c01(exe, tier, seed, verdict):
     if r4.violated:
         verdict.violation("C01:model", {"tlc": r4.out[-3000:]}, "TLC: Read differs from UapiRef with two postfix directories\n" + r4.out[-1500:])
     states += r4.distinct
-    for sn in ("config_dirs", "set_conf_dirs"):
+    for sn in ("config_dirs", "set_conf_dirs", "config_dirs_over_global"):
         cc4 = recs4 if tier == "thorough" or len(recs4) <= 1500 else rnd.sample(recs4, 1500)
         n += replay_trees(exe, cc4, Shape(sn), verdict, "C01")
         evals += len(cc4)
@@ -494,8 +507,10 @@ def check_c06(exe, tier, seed, verdict):
     entries2 = ["readdirscb", "readhistcb", "rc2cb", "readdirscb_rel", "readhistcb_rel"]
     scen = []
     budget = 1500 if tier == "quick" else 20000
+    r1, recs1, _ = tree_export(1, [], 0, ["bb"])
     pool = [(x, "std") for x in recs if len(x["log"]) >= 1] + [(x, e) for x in recs2 if len(x["log"]) >= 1 for e in entries2]
     rnd.shuffle(pool)
+    pool = [(x, "readfilecb") for x in recs1] * 3 + pool
     for x, ent in pool:
         K = [tuple(f) for f in x["log"]]
         choices = [set()] + [{f} for f in K]
